@@ -532,6 +532,9 @@ class TypeTransformer:
             return t.utcfromtimestamp(data).replace(tzinfo=timezone.utc)
 
         data = self._from_byte_like(data)
+        if not isinstance(data, str):
+            # ("GMT" in <iterator> would scan it element by element, forever for an infinite one)
+            raise TypeError(f'invalid datetime: {type(data)}')
         is_utc = "GMT" in data or 'UTC' in data or data.endswith("Z") and "T" in data
         data = data.replace('GMT', '').replace('UTC', '').replace('TZD', '').rstrip('Z').strip()
 
